@@ -624,12 +624,22 @@ pub fn check_output_failure(st: &mut Stats) {
     }
 }
 
+/// Every synthetic input file gets the SAME modification time: successive configurations of a
+/// shard are written to one path, many have the same byte length, and the harness owns the clock -
+/// an input that is re-read must be re-read, whatever its metadata says.
+fn pin_mtime(p: &Path) {
+    if let Ok(f) = std::fs::OpenOptions::new().write(true).open(p) {
+        let _ = f.set_modified(std::time::UNIX_EPOCH + std::time::Duration::from_secs(1_400_000_000));
+    }
+}
+
 pub fn check_unicode_data_config(dir: &Path, items: &[Item], base: u32, n: u32, st: &mut Stats) {
     let text = render_unicode_data(items, base);
     if std::fs::write(dir.join("UnicodeData.txt"), &text).is_err() {
         st.caps_hit.push("MACHINERY: cannot write scratch UnicodeData.txt".into());
         return;
     }
+    pin_mtime(&dir.join("UnicodeData.txt"));
     let items_json: Vec<Value> = items.iter().map(|i| json!([i.off, i.len, i.bundle, i.range])).collect();
     let mk = move || Case::new("unicode_data").n(base as u64).n(n as u64).x(json!(items_json));
     st.evaluations += 1;
@@ -828,6 +838,7 @@ pub fn check_prop_config(dir: &Path, kind: FileKind, lines: &[(u32, u32, u8)], l
         st.caps_hit.push("MACHINERY: cannot write scratch property file".into());
         return;
     }
+    pin_mtime(&p);
     let lj: Vec<Value> = lines.iter().map(|l| json!([l.0, l.1, l.2])).collect();
     let mk = move || Case::new("prop_file").n(kind.idx() as u64).n(lo as u64).n(hi as u64).x(json!(lj));
     st.evaluations += 1;
